@@ -3,7 +3,8 @@ CONSTANTS
   Protos <- AllProtos
   Retries <- R0123
   Outcomes <- AllOutcomes
+  MaxRounds = 2
   Emit = FALSE
-INVARIANTS AttemptsBounded SendsBounded ChallengeFresh OnlyProtocolRequests ErrorClassFaithful AllTimeoutsGiveTimeout OpensBounded 
+INVARIANTS AttemptsBounded SendsBounded ChallengeFresh RoundEchoed OnlyProtocolRequests ErrorClassFaithful AllTimeoutsGiveTimeout OpensBounded 
 PROPERTIES RetryOnlyAfterTimeout Termination
 CHECK_DEADLOCK FALSE
